@@ -47,6 +47,10 @@ CONFIGS = {
     # allocation-failure injection: malloc family wrapped at link time
     "oom": dict(cc="gcc", flags="-O2 -g -DNDEBUG -std=c11 -O3 -DVDRV_WRAP_ALLOC "
                 "-Wl,--wrap=malloc,--wrap=calloc,--wrap=realloc,--wrap=free"),
+    # every uninitialised automatic variable forced to zero / to a 0xFE pattern: results that
+    # differ between the two (or from the plain build) were computed from uninitialised locals
+    "initzero": dict(cc="gcc", flags="-O2 -g -DNDEBUG -std=c11 -O3 -ftrivial-auto-var-init=zero"),
+    "initpat": dict(cc="gcc", flags="-O2 -g -DNDEBUG -std=c11 -O3 -ftrivial-auto-var-init=pattern"),
     # for valgrind memcheck (no sanitizer, debug info, light optimisation)
     "vg": dict(cc="gcc", flags="-O1 -g -DNDEBUG -std=c11"),
 }
